@@ -60,7 +60,8 @@ ASSUMPTIONS = [
 PROBES = ['split_inside_crlf', 'split_inside_multibyte', 'eintr_retried', 'exotic_in_comment',
           'exotic_in_string', 'cr_only_file', 'unterminated_last_line', 'comment_before_eof',
           'zero_graphs', 'nbsp', 'empty_meta_value_crlf_kept', 'utf16', 'decode_error_reference',
-          'yielded_prefix_nonempty', 'interleaved_iterators', 'stream_copy', 'copy_prefix_nonempty_after_read_error']
+          'yielded_prefix_nonempty', 'interleaved_iterators', 'stream_copy', 'copy_prefix_nonempty_after_read_error', 'results_annotated_by_user_code',
+          'dump_with_encoding']
 
 CONTAINERS = ['lines', 'lines_lf', 'lines_keep', 'gen', 'tuple', 'stringio', 'simfile', 'simfile_raw', 'simtext',
               'simpath', 'simpath_enc', 'simpath_pathlib', 'realfile', 'iterparse_lines', 'iterparse_simfile']
@@ -87,7 +88,8 @@ def plan_graphs(rng, spec, exotic):
         meta = gtext.gen_metadata(r.sub('meta'), exotic=exotic)
         if rng.sub('huge', i).chance(0.004):
             # more than 64 Ki characters in one text (implementations switch strategy at such sizes)
-            meta = meta + [['huge', ('z' + str(r.randrange(10)) + ' ') * (22000 + r.randrange(300)) + 'end']]
+            # (one physical line of 66 Ki, 135 Ki or 210 Ki characters: longer than one or two 64 Ki blocks)
+            meta = meta + [['huge', ('z' + str(r.randrange(10)) + ' ') * (r.pick([22000, 45000, 70000]) + r.randrange(300)) + 'end']]
         if big and i == n // 2:
             # a long comment line so that the text crosses the 8 KiB buffer / chunk size at a seeded offset
             meta = meta + [['long', ('w' + str(r.randrange(10)) + ' ') * (2650 + r.randrange(120)) + 'end']]
@@ -134,6 +136,9 @@ def plan(rng, idx, tier):
         'debug_logging': rng.sub('dbg').chance(0.08),
         'newline': newline, 'mixseed': srng.randrange(1 << 30), 'containers': containers,
         'encoding': crng.weighted([('utf-8', 8), ('utf-16', 1)]),
+        'dump_encoding': rng.sub('denc').weighted([(None, 6), ('utf-8', 1), ('utf-8-sig', 1), ('utf-16', 1), ('utf-32', 1),
+                                                   ('utf-16-le', 1)]),
+        'annotate_results': rng.sub('annot').chance(0.3),
         'read_plan': io_plan(rng.sub('rio'), rng.sub('rio?').chance(0.75)),
         'dump': {'indent': rng.sub('d').pick([-1, -1, None, 0, 1, 2, 3, 4]),
                  'compact': rng.sub('d2').chance(0.3),
@@ -279,6 +284,22 @@ def _execute(trace):
         res.hit('probe.decode_error_reference')
     Rt, Rtexc = _call(lambda: list(penman.iterparse(T)))
     Rtc = canon_result(Rt, Rtexc)
+    if trace.get('annotate_results'):
+        # what user code does with results it owns: annotate them in place.  Every later decode of the same text
+        # (all containers below) must be unaffected by that
+        from penman import layout as _layout
+        own, _ = _call(lambda: list(penman.iterparse(T)))
+        for tr in own or []:
+            tr.metadata['annotator'] = 'user code'
+            tr.metadata.pop('id', None)
+        owng, _ = _call(lambda: penman.loads(T, model=model))
+        for g_ in owng or []:
+            g_.metadata['checked'] = 'yes'
+            tt, _ = _call(lambda: _layout.configure(g_, model=model))
+            if tt is not None:
+                tt.metadata['laid-out'] = 'yes'
+        _call(lambda: penman.parse('(no / comments :here (at / all))').metadata.update({'note': 'x'}))
+        res.hit('probe.results_annotated_by_user_code')
 
     fs = simio.SimFS(k)
     rp = dict(trace.get('read_plan') or {})
@@ -568,6 +589,25 @@ def roundtrips(trace, R, model, fs, k, res):
         res.violate('roundtrip', 'dump-to-pathlib-path-differs', error=digest.canon_exc(exc) if exc else None,
                     created='/sim/out3.penman' in fs.files, n_graphs=len(R))
         return
+    denc = trace.get('dump_encoding')
+    if denc:
+        # dump(path, encoding=E) then load(path, encoding=E): byte-order marks and multi-byte units are the codec's
+        # business, once per file
+        fs.plans['/sim/out4.penman'] = wp
+        with _Patched(fs):
+            _, exc = _call(lambda: penman.dump(R, '/sim/out4.penman', model=model, indent=indent, compact=compact,
+                                               encoding=denc))
+            got, exc2 = (None, exc) if exc else _call(lambda: penman.load('/sim/out4.penman', model=model, encoding=denc))
+        res.hit('probe.dump_with_encoding')
+        if exc:
+            res.violate('roundtrip', 'dump-raised', via='path with encoding ' + denc, error=digest.canon_exc(exc))
+            return
+        check('dump_path_encoding_' + denc, got, exc2)
+        want_bytes = b2.decode('utf-8').encode(denc) if b2 else b''      # nothing written, no byte-order mark either
+        if fs.durable('/sim/out4.penman') != want_bytes:
+            res.violate('roundtrip', 'dump-with-encoding-is-not-the-encoded-text', encoding=denc,
+                        expected_bytes=len(want_bytes), got_bytes=len(fs.durable('/sim/out4.penman')),
+                        head=fs.durable('/sim/out4.penman')[:80].hex())
     if 'w' not in [m for p, m in fs.opened if p == '/sim/out2.penman']:
         res.violate('roundtrip', 'dump-path-not-opened-for-writing', opened=fs.opened)
     if trace.get('run', 0) % 8 == 1 or trace.get('real_dump'):
